@@ -4,7 +4,9 @@
 // Engine E2 (complete enumeration) in differential form, see C20_common.hpp: each scenario template runs against etl::
 // and against std:: and both outcome strings (values, moved-from markers of the sources) must be identical.
 //
-//   pair.rel      all 81 pairs of pairs over {0,1,2}^2, six relations; element configs <int,int> <TCM,TCM> <int&,int const> <int,long>
+//   pair.rel      all 81 pairs of pairs over {0,1,2}^2, six relations; element configs <int,int> <TCM,TCM> <int&,int const> <int,long>;
+//                 all 256 pairs of pairs with a WEAKLY ordered element type (operator< coarser than operator==) in first,
+//                 second and both positions: the relations must be built from < alone as [pairs.spec] says
 //   pair.ops      the same 81 value pairs x {copy/move/converting assignment (also from a pair of references), member and
 //                 free swap, self copy-assignment, self swap, copy/move/converting/value construction, make_pair, default
 //                 construction} x element configs {int, TCM (copy+move, lifetime tracked), TMO (move only), TCO (copy only)}
@@ -46,6 +48,24 @@ auto rels(P const& p, P const& q) -> std::string
 
 bool first_ties(int x, int y) { return x / 3 == y / 3; }
 
+// An element type whose operator< is a strict weak order COARSER than its operator==: ordered by priority only,
+// equal only if the id matches too.  [pairs.spec] defines pair's relations through `<` alone:
+//     x < y  :=  x.first < y.first || (!(y.first < x.first) && x.second < y.second)
+// so two firsts of the same priority are "equivalent" and the seconds decide, although the firsts are != .
+// (operator== of the pair, on the other hand, uses the elements' ==.)  std::pair is the oracle.
+struct Weak {
+    int prio;
+    int id;
+    friend auto operator<(Weak const& a, Weak const& b) -> bool { return a.prio < b.prio; }
+    friend auto operator==(Weak const& a, Weak const& b) -> bool { return a.prio == b.prio && a.id == b.id; }
+};
+// four values: (0,0) (0,1) (1,0) (1,1)
+auto weak(int code) -> Weak { return Weak{(code / 2) % 2, code % 2}; }
+bool weak_first_equivalent_not_equal(int x, int y) { return (x / 4) / 2 == (y / 4) / 2 && (x / 4) != (y / 4); }
+// (An element type with operator< only and no operator== — sufficient for std::pair's < <= > >= and for etl's on the
+//  unchanged tree — is deliberately NOT instantiated: a tree whose pair relations start to use == would then fail to
+//  BUILD this harness (exit 2, no verdict) instead of being reported through the Weak families below.)
+
 void add_pair_rel()
 {
     add_family("pair.rel<i,i>", "pair.rel", 9, 9, []<class L>(int x, int y) {
@@ -65,6 +85,26 @@ void add_pair_rel()
         typename L::template pair<int, long> p{x / 3, x % 3}, q{y / 3, y % 3};
         return rels(p, q);
     }, first_ties, "pair.rel.first_elements_tie");
+    // weakly ordered element type in first, second and both positions: all 16 x 16 pairs of pairs over 4 x 4 values
+    add_family("pair.rel<weak,i>", "pair.rel", 16, 16, []<class L>(int x, int y) {
+        typename L::template pair<Weak, int> p{weak(x / 4), x % 4}, q{weak(y / 4), y % 4};
+        return rels(p, q);
+    }, weak_first_equivalent_not_equal, "pair.rel.first_elements_equivalent_but_not_equal");
+    add_family("pair.rel<i,weak>", "pair.rel", 16, 16, []<class L>(int x, int y) {
+        typename L::template pair<int, Weak> p{x / 4, weak(x % 4)}, q{y / 4, weak(y % 4)};
+        return rels(p, q);
+    }, +[](int x, int y) { return x / 4 == y / 4; }, "pair.rel.first_elements_tie");
+    add_family("pair.rel<weak,weak>", "pair.rel", 16, 16, []<class L>(int x, int y) {
+        typename L::template pair<Weak, Weak> p{weak(x / 4), weak(x % 4)}, q{weak(y / 4), weak(y % 4)};
+        return rels(p, q);
+    }, weak_first_equivalent_not_equal, "pair.rel.first_elements_equivalent_but_not_equal");
+    // tuple has only ==: it must use the elements' ==, not equivalence under <
+    add_family("tuple.eq<weak,i,weak>", "tuple.eq", 64, 64, []<class L>(int x, int y) {
+        typename L::template tuple<Weak, int, Weak> t{weak(x / 16), (x / 4) % 4, weak(x % 4)}, u{weak(y / 16), (y / 4) % 4, weak(y % 4)};
+        Out o;
+        o << "== " << (t == u) << " != " << (t != u) << " u==t " << (u == t);
+        return o.s;
+    }, +[](int x, int y) { return (x / 16) / 2 == (y / 16) / 2; }, "tuple.eq.first_elements_equivalent_under_less");
 }
 
 // ------------------------------------------------------------------ pair.ops
